@@ -4,7 +4,9 @@ package p01
 // scriptval.go) called directly on the candidate, nothing delivered.  Op `C01 api …`.
 
 import (
+	"bytes"
 	"fmt"
+	"sort"
 	"strings"
 	"time"
 
@@ -112,7 +114,7 @@ func (sc *scenario) apiOn(in *inst) string {
 	height := sc.parent.height + 1
 	blk := btcutil.NewBlock(sc.cand)
 	blk.SetHeight(height)
-	clock := fixedClock{v.now()}
+	clock := newClock(v.now())
 	hdr := &sc.cand.Header
 
 	sanity := clsOrOk(sc.mode, blockchain.CheckBlockSanity(blk, params.PowLimit, clock))
@@ -130,7 +132,13 @@ func (sc *scenario) apiOn(in *inst) string {
 	}
 	mtp := time.Unix(sc.parent.mtp(), 0)
 	flags := sc.specFlags()
-	sigCache, hashCache := txscript.NewSigCache(100), txscript.NewHashCache(100)
+	sigCache, hashCache := sharedSigCache, sharedHashCache
+	// inputs are values: the parameter object, the block object and each utxo view are created once, used for
+	// every call below, and must read the same afterwards
+	val := "ok"
+	paramsBefore := fmt.Sprint(params.CoinbaseMaturity, params.SubsidyReductionInterval, params.BIP0034Height,
+		params.BIP0065Height, params.BIP0066Height, params.PowLimit, params.PowLimitBits, params.EnforceBIP94)
+	bytesBefore := serialize(sc.cand)
 
 	var txS, fin, sl, ins, so, scr, p2 []string
 	var cost [4][]string
@@ -158,6 +166,7 @@ func (sc *scenario) apiOn(in *inst) string {
 			}
 			view.AddTxOuts(txs[j], height)
 		}
+		viewBefore := viewDigest(view)
 		isCb := blockchain.IsCoinBase(tx)
 		unavailable := false
 		for _, tin := range tx.MsgTx().TxIn {
@@ -177,10 +186,17 @@ func (sc *scenario) apiOn(in *inst) string {
 		} else {
 			sl = append(sl, fmt.Sprint(b2i(blockchain.SequenceLockActive(lock, height, mtp))))
 		}
-		if fee, err := blockchain.CheckTransactionInputs(tx, height, view, params); err != nil {
+		fee, err := blockchain.CheckTransactionInputs(tx, height, view, params)
+		if err != nil {
 			ins = append(ins, clsOrOk(sc.mode, err))
 		} else {
 			ins = append(ins, fmt.Sprintf("fee:%d", fee))
+		}
+		for k := 0; k < 2; k++ {
+			// the same arguments again: the same answer
+			if f2, e2 := blockchain.CheckTransactionInputs(tx, height, view, params); f2 != fee || (e2 == nil) != (err == nil) {
+				val = "inputs-unstable"
+			}
 		}
 		if unavailable || hasNull(tx.MsgTx()) && !isCb {
 			p2 = append(p2, "-") // how a stand-alone helper reports a missing input is not part of the property
@@ -207,17 +223,51 @@ func (sc *scenario) apiOn(in *inst) string {
 		default:
 			scr = append(scr, fmt.Sprint(b2i(blockchain.ValidateTransactionScripts(tx, view, flags, sigCache, hashCache) == nil)))
 		}
+		if viewDigest(view) != viewBefore {
+			val = "view-mutated"
+		}
+	}
+	if fmt.Sprint(params.CoinbaseMaturity, params.SubsidyReductionInterval, params.BIP0034Height,
+		params.BIP0065Height, params.BIP0066Height, params.PowLimit, params.PowLimitBits, params.EnforceBIP94) != paramsBefore {
+		val = "params-mutated"
 	}
 	cbh, wc := "-", ""
 	if len(txs) > 0 && len(txs[0].MsgTx().TxIn) > 0 {
 		cbh = cls(blockchain.CheckSerializedHeight(txs[0], height))
 	}
 	wc = cls(blockchain.ValidateWitnessCommitment(blk))
-	return fmt.Sprintf("sanity=%s hs=%s pow=%s hc=%s tx=%s fin=%s sl=%s in=%s so=%s c00=%s c01=%s c10=%s c11=%s w=%d cbh=%s wc=%s sub=%d sc=%s p2=%s hv=%d",
+	return fmt.Sprintf("sanity=%s hs=%s pow=%s hc=%s tx=%s fin=%s sl=%s in=%s so=%s c00=%s c01=%s c10=%s c11=%s w=%d cbh=%s wc=%s sub=%d sc=%s p2=%s hv=%d val=%s",
 		sanity, hs, pow, hc, joinC(txS), joinC(fin), joinC(sl), joinC(ins), joinC(so),
 		joinC(cost[0]), joinC(cost[1]), joinC(cost[2]), joinC(cost[3]),
 		blockchain.GetBlockWeight(blk), cbh, wc, blockchain.CalcBlockSubsidy(height, params), joinC(scr), joinC(p2),
-		b2i(blockchain.ShouldHaveSerializedBlockHeight(hdr)))
+		b2i(blockchain.ShouldHaveSerializedBlockHeight(hdr)), valAfter(val, sc, blk, bytesBefore))
+}
+
+// valAfter: the block value and the block object read the same after all the calls.
+func valAfter(val string, sc *scenario, blk *btcutil.Block, before []byte) string {
+	if !bytes.Equal(serialize(sc.cand), before) {
+		return "block-mutated"
+	}
+	if len(sc.cand.Transactions) > 0 && len(sc.cand.Transactions[0].TxIn) > 0 {
+		if bb, err := blk.Bytes(); err != nil || !bytes.Equal(bb, before) {
+			return "block-object-mutated"
+		}
+	}
+	return val
+}
+
+// viewDigest renders what a utxo view says, in a fixed order.
+func viewDigest(view *blockchain.UtxoViewpoint) string {
+	var ks []string
+	for op, e := range view.Entries() {
+		if e == nil {
+			ks = append(ks, fmt.Sprintf("%v:nil", op))
+		} else {
+			ks = append(ks, fmt.Sprintf("%v:%d:%v:%d:%v", op, e.Amount(), e.IsSpent(), e.BlockHeight(), e.IsCoinBase()))
+		}
+	}
+	sort.Strings(ks)
+	return strings.Join(ks, "|")
 }
 
 func hasNull(t *wire.MsgTx) bool {
